@@ -787,23 +787,16 @@ func c16ToWalk(r *Run) {
 		}
 		n++
 		facts := fa.FactsAt(ret, lb)
-		okValid := Entails(facts, lb.Scale(-1)) // 0 <= bsp
+		okValid := fa.EntailsOnEdges(ret, lb.Scale(-1), 6) // 0 <= bsp on every feasible path to the return
 		r.Check(okValid, "result", "ToWalk: success only when NormalizePath accepted the names (leading-'..' count >= 0)", ret.Pos(),
 			"ToWalk succeeds although NormalizePath reported invalid names (-1): a name containing a separator is accepted and the walk silently resolves elsewhere", factStrings(facts)...)
 		// absolute paths: on the isAbs edge the count must be zero
-		isAbsEdge := false
-		for _, cd := range condsAtInstr(ret) {
-			nc := normCond(cd)
-			for _, a := range abs {
-				if nc.V == ssa.Value(a) && nc.Truth {
-					isAbsEdge = true
-				}
-			}
-		}
-		if isAbsEdge {
-			r.Check(Entails(facts, lb), "result", "ToWalk: an absolute path succeeds only with no leading '..' left", ret.Pos(), "an absolute path may climb above the root")
+		// absolute paths: on every feasible path on which IsAbs(p) is true, the count is zero — proved with the
+		// IsAbs test assumed (paths taking its false edge become infeasible)
+		for _, a := range abs {
+			r.Check(fa.entailsOnEdgesAssuming(ret, lb, 6, Cond{a, true}), "result", "ToWalk: an absolute path succeeds only with no leading '..' left", ret.Pos(), "an absolute path may climb above the root")
 		}
 		r.Check(derivesFrom(ret.Results[1], steps, 2), "result", "ToWalk: the steps returned are NormalizePath's", ret.Pos(), "the steps returned are not the normalised names")
 	}
-	r.Floor("result", n, 2, "success returns of ToWalk")
+	r.Floor("result", n, 1, "success returns of ToWalk")
 }
